@@ -22,6 +22,7 @@ struct Occupancy {
   int writers = 0;
   int readers = 0;
   const char* prefix = "";
+  char data = 0; // C10: the data the lock protects; written by writers, read by readers
   void enterWrite(const char* how) {
     if (writers != 0 || readers != 0) {
       char cls[128];
@@ -29,6 +30,7 @@ struct Occupancy {
       sim_fail(cls, "%s acquired while writers=%d readers=%d", how, writers, readers);
     }
     writers++;
+    raceW(&data, "write-under-exclusive-lock");
   }
   void leaveWrite() {
     writers--;
@@ -40,6 +42,7 @@ struct Occupancy {
       sim_fail(cls, "%s acquired while writers=%d", how, writers);
     }
     readers++;
+    raceR(&data, "read-under-shared-lock");
   }
   void leaveRead() {
     readers--;
@@ -282,19 +285,39 @@ static void wlDistRW() {
 struct Val {
   int tag = -1;
   bool moved = false;
-  Val() {}
-  explicit Val(int t) : tag(t) {}
+  Val() {
+    raceW(this, "request-value");
+  }
+  explicit Val(int t) : tag(t) {
+    raceW(this, "request-value");
+  }
   Val(Val&& o) noexcept : tag(o.tag), moved(false) {
+    raceW(&o, "request-value");
+    raceW(this, "request-value");
     o.moved = true;
   }
   Val& operator=(Val&& o) noexcept {
+    raceW(&o, "request-value");
+    raceW(this, "request-value");
     tag = o.tag;
     moved = false;
     o.moved = true;
     return *this;
   }
-  Val(const Val&) = default;
-  Val& operator=(const Val&) = default;
+  Val(const Val& o) : tag(o.tag), moved(o.moved) {
+    raceR(&o, "request-value");
+    raceW(this, "request-value");
+  }
+  Val& operator=(const Val& o) {
+    raceR(&o, "request-value");
+    raceW(this, "request-value");
+    tag = o.tag;
+    moved = o.moved;
+    return *this;
+  }
+  ~Val() {
+    raceW(this, "request-value");
+  }
 };
 
 static void wlAsyncRequest() {
@@ -427,6 +450,7 @@ static void wlResourcePool() {
           Res& x = r.get();
           if (x.holders++ != 0)
             sim_fail("ResourcePool:resource-held-twice", "resource %d handed to two holders", x.id);
+          raceW(&x, "resource-in-use");
           if (++held > maxHeld)
             maxHeld = held;
           if (held > size)
@@ -438,6 +462,7 @@ static void wlResourcePool() {
             Res& y = r2.get();
             if (y.holders++ != 0)
               sim_fail("ResourcePool:resource-held-twice", "resource %d handed to two holders", y.id);
+            raceW(&y, "resource-in-use");
             ++held;
             x.holders--;
             --held;
